@@ -140,6 +140,19 @@ const NAMES: [&str; 4] = ["staking", "treasury", "crates.io:staking", ""];
 fn v110_grid(r: &mut Runner, thorough: bool) {
     let k = K::k0();
     let mut bases: Vec<(&str, Sim)> = vec![("received", seed_received(&k))];
+    // the staker configured in its upper-case spelling (valid bech32, stored as given): "the staker as receiver"
+    // means that string
+    if let Some(s) = try_seed(|| {
+        let mut nc = instantiate_msg(&k).native_chain_config;
+        nc.staker_address = nc.staker_address.to_uppercase();
+        Script { s: seed_received(&k), strict: true, dead: false }
+            .run(exec(&adm(), staking::msg::ExecuteMsg::UpdateConfig { native_chain_config: Some(nc), protocol_chain_config: None, protocol_fee_config: None, monitors: None, batch_period: None }, vec![]))
+            .done()
+    }) {
+        if s.w.config().native_chain_config.staker_address.as_str().chars().any(|c| c.is_ascii_uppercase()) {
+            bases.push(("received_upper_case_staker", s));
+        }
+    }
     if thorough {
         bases.push(("rate_up", seed_rate_up(&k)));
         bases.push(("queued_k2", seed_queued(&K::k2())));
